@@ -37,7 +37,7 @@ import (
 	ma "github.com/multiformats/go-multiaddr"
 )
 
-// ThresholdCount, when set by a white-box harness of the upgrader package, reads the listener's backpressure
+// ThresholdCount, when set by a white-box H of the upgrader package, reads the listener's backpressure
 // counter (diagnostics only).
 var ThresholdCount func(transport.Listener) (int, bool)
 
@@ -45,7 +45,7 @@ var ThresholdCount func(transport.Listener) (int, bool)
 var Seed = vrep.Seed()
 
 const (
-	StepTimeout = 30 * time.Second // virtual: how long a harness step (Close, ...) may block
+	StepTimeout = 30 * time.Second // virtual: how long a H step (Close, ...) may block
 	Settle      = 3 * time.Minute  // virtual: longer than every deadline of the pipeline (accept 15s, negotiate 60s, yamux keep-alive 30s + write timeout 10s, TLS close-notify 5s)
 )
 
@@ -262,28 +262,46 @@ func MirrorDial(ctx context.Context, e *Env, a *Attempt) (transport.CapableConn,
 	return c, "", nil
 }
 
-type harness struct {
-	mu    sync.Mutex
-	res   *Result
-	start time.Time
-	hung  []string
+// H collects the trace and the violations of one run and runs harness steps under a (virtual) timeout.
+type H struct {
+	mu       sync.Mutex
+	start    time.Time
+	TraceLog []string
+	Vios     []Vio
+	Hung     []string // steps that did not return
+	fired    bool
 }
 
-func (h *harness) trace(f string, a ...any) {
+func NewH() *H { return &H{start: time.Now()} }
+
+func (h *H) Trace(f string, a ...any) {
 	h.mu.Lock()
-	h.res.Trace = append(h.res.Trace, fmt.Sprintf("[%6.2fs] ", time.Since(h.start).Seconds())+fmt.Sprintf(f, a...))
+	h.TraceLog = append(h.TraceLog, fmt.Sprintf("[%6.2fs] ", time.Since(h.start).Seconds())+fmt.Sprintf(f, a...))
 	h.mu.Unlock()
 }
 
-func (h *harness) vio(key, f string, a ...any) {
+func (h *H) Vio(key, f string, a ...any) {
 	h.mu.Lock()
-	h.res.Vios = append(h.res.Vios, Vio{Key: key, Desc: fmt.Sprintf(f, a...)})
+	h.Vios = append(h.Vios, Vio{Key: key, Desc: fmt.Sprintf(f, a...)})
 	h.mu.Unlock()
 }
 
-// step runs f in its own goroutine and waits at most StepTimeout (virtual). A step that does not return
+// MarkFired records that the armed fault actually took effect.
+func (h *H) MarkFired() {
+	h.mu.Lock()
+	h.fired = true
+	h.mu.Unlock()
+}
+
+func (h *H) Fired() bool {
+	h.mu.Lock()
+	defer h.mu.Unlock()
+	return h.fired
+}
+
+// Step runs f in its own goroutine and waits at most StepTimeout (virtual). A step that does not return
 // leaves its goroutine behind, which the goroutine audit reports together with its stack.
-func (h *harness) step(name string, f func()) bool {
+func (h *H) Step(name string, f func()) bool {
 	done := make(chan struct{})
 	go func() {
 		defer close(done)
@@ -293,12 +311,46 @@ func (h *harness) step(name string, f func()) bool {
 	case <-done:
 		return true
 	case <-time.After(StepTimeout):
-		h.trace("step %q still blocked after %v", name, StepTimeout)
+		h.Trace("step %q still blocked after %v", name, StepTimeout)
 		h.mu.Lock()
-		h.hung = append(h.hung, name)
+		h.Hung = append(h.Hung, name)
 		h.mu.Unlock()
 		return false
 	}
+}
+
+// AuditGoroutines is audit (iii): call it after everything that legitimately lives on was shut down and
+// virtual time has passed every deadline. Whatever goroutine of the bubble is left (other than the caller)
+// is reported. Returns true if the bubble is clean.
+func (h *H) AuditGoroutines(context string) bool {
+	synctest.Wait()
+	stacks, _ := memnet.BubbleGoroutines()
+	if len(stacks) == 0 {
+		return true
+	}
+	sigs := map[string]struct{}{}
+	for _, st := range stacks {
+		sigs[leakSig(st)] = struct{}{}
+	}
+	var l []string
+	for s := range sigs {
+		l = append(l, s)
+	}
+	sort.Strings(l)
+	var sb strings.Builder
+	for i, st := range stacks {
+		if i == 4 {
+			fmt.Fprintf(&sb, "\n... and %d more", len(stacks)-4)
+			break
+		}
+		sb.WriteString("\n--- " + memnet.TopFrames(st, 8))
+	}
+	h.mu.Lock()
+	hung := append([]string(nil), h.Hung...)
+	h.mu.Unlock()
+	h.Vio("goroutine-left/"+l[0], "%d goroutine(s) started for the attempt are still blocked after %s and %v of virtual time passed (harness steps that did not return: %v):%s",
+		len(stacks), context, Settle, hung, sb.String())
+	return false
 }
 
 func OutStage(err error) string {
@@ -362,7 +414,7 @@ func inStage(in *Side, accepted int) string {
 var echoPayload = []byte("c04-ping")
 
 // serveEcho echoes on every stream the peer opens on c until the connection dies.
-func serveEcho(h *harness, c transport.CapableConn) {
+func serveEcho(h *H, c transport.CapableConn) {
 	for {
 		s, err := c.AcceptStream()
 		if err != nil {
@@ -372,12 +424,12 @@ func serveEcho(h *harness, c transport.CapableConn) {
 			s.SetDeadline(time.Now().Add(10 * time.Second))
 			buf := make([]byte, len(echoPayload))
 			if _, err := io.ReadFull(s, buf); err != nil {
-				h.trace("echo server: read: %v", err)
+				h.Trace("echo server: read: %v", err)
 				s.Reset()
 				return
 			}
 			if _, err := s.Write(buf); err != nil {
-				h.trace("echo server: write: %v", err)
+				h.Trace("echo server: write: %v", err)
 				s.Reset()
 				return
 			}
@@ -387,23 +439,23 @@ func serveEcho(h *harness, c transport.CapableConn) {
 }
 
 // doEcho opens one stream on c, sends the payload and expects it back.
-func doEcho(h *harness, ctx context.Context, c transport.CapableConn) string {
+func doEcho(h *H, ctx context.Context, c transport.CapableConn) string {
 	octx, cancel := context.WithTimeout(ctx, 10*time.Second)
 	defer cancel()
 	s, err := c.OpenStream(octx)
 	if err != nil {
-		h.trace("OpenStream: %v", err)
+		h.Trace("OpenStream: %v", err)
 		return "open-stream-failed"
 	}
 	s.SetDeadline(time.Now().Add(10 * time.Second))
 	if _, err := s.Write(echoPayload); err != nil {
-		h.trace("stream write: %v", err)
+		h.Trace("stream write: %v", err)
 		s.Reset()
 		return "stream-write-failed"
 	}
 	buf := make([]byte, len(echoPayload))
 	if _, err := io.ReadFull(s, buf); err != nil {
-		h.trace("stream read: %v", err)
+		h.Trace("stream read: %v", err)
 		s.Reset()
 		return "stream-read-failed"
 	}
@@ -412,7 +464,7 @@ func doEcho(h *harness, ctx context.Context, c transport.CapableConn) string {
 		return "echo-mismatch"
 	}
 	if err := s.Close(); err != nil {
-		h.trace("stream close: %v", err)
+		h.Trace("stream close: %v", err)
 	}
 	return "echo-ok"
 }
@@ -422,7 +474,15 @@ func runInBubble(cs Case, res *Result, dial DialFunc) {
 	if dial == nil {
 		dial = MirrorDial
 	}
-	h := &harness{res: res, start: time.Now()}
+	h := NewH()
+	defer func() {
+		h.mu.Lock()
+		res.Trace, res.Vios = h.TraceLog, h.Vios
+		if h.fired {
+			res.Fired = true
+		}
+		h.mu.Unlock()
+	}()
 	scn, ok := Scenarios[cs.Scenario]
 	if !ok {
 		res.Infra = "unknown scenario " + cs.Scenario
@@ -457,7 +517,7 @@ func runInBubble(cs Case, res *Result, dial DialFunc) {
 	}
 	ml := memnet.Listen(AddrIn)
 	ln := in.Upgrader.UpgradeListener(StubTransport{}, ml)
-	env := &Env{Out: out, In: in, ML: ml, Trace: h.trace}
+	env := &Env{Out: out, In: in, ML: ml, Trace: h.Trace}
 
 	var before [2]memnet.Snap
 	for i, s := range sides {
@@ -481,10 +541,8 @@ func runInBubble(cs Case, res *Result, dial DialFunc) {
 		// resource-manager entry point
 		hook := func(what string, n int) {
 			if what == f.What && n == f.K {
-				h.trace("fault: cancel outbound ctx at %s call %s#%d", f.Side, what, n)
-				h.mu.Lock()
-				res.Fired = true
-				h.mu.Unlock()
+				h.Trace("fault: cancel outbound ctx at %s call %s#%d", f.Side, what, n)
+				h.MarkFired()
 				cancel0()
 			}
 		}
@@ -509,10 +567,10 @@ func runInBubble(cs Case, res *Result, dial DialFunc) {
 	closeListenerAsync := func(why string) {
 		lnCloseOnce.Do(func() {
 			markLnClose()
-			h.trace("listener.Close() issued (%s)", why)
+			h.Trace("listener.Close() issued (%s)", why)
 			go func() {
 				err := ln.Close()
-				h.trace("listener.Close() returned: %v", err)
+				h.Trace("listener.Close() returned: %v", err)
 			}()
 		})
 	}
@@ -549,10 +607,8 @@ func runInBubble(cs Case, res *Result, dial DialFunc) {
 	case "cancel":
 		ends[sideOf(f.Side)].SetOnOp(func(op memnet.Op) {
 			if op.Index == f.K {
-				h.trace("fault: cancel outbound ctx at %s op %d", f.Side, f.K)
-				h.mu.Lock()
-				res.Fired = true
-				h.mu.Unlock()
+				h.Trace("fault: cancel outbound ctx at %s op %d", f.Side, f.K)
+				h.MarkFired()
 				cancel0()
 			}
 		})
@@ -569,18 +625,14 @@ func runInBubble(cs Case, res *Result, dial DialFunc) {
 			if c == nil {
 				return
 			}
-			h.mu.Lock()
-			res.Fired = true
-			h.mu.Unlock()
-			h.trace("fault: %s connection Close() at its op %d", f.Side, f.K)
-			go func() { h.trace("fault: Close returned %v", c.Close()) }()
+			h.MarkFired()
+			h.Trace("fault: %s connection Close() at its op %d", f.Side, f.K)
+			go func() { h.Trace("fault: Close returned %v", c.Close()) }()
 		})
 	case "lnclose":
 		ends[sideOf(f.Side)].SetOnOp(func(op memnet.Op) {
 			if op.Index == f.K {
-				h.mu.Lock()
-				res.Fired = true
-				h.mu.Unlock()
+				h.MarkFired()
 				closeListenerAsync(fmt.Sprintf("fault at %s op %d", f.Side, f.K))
 			}
 		})
@@ -597,10 +649,10 @@ func runInBubble(cs Case, res *Result, dial DialFunc) {
 			for {
 				c, err := ln.Accept()
 				if err != nil {
-					h.trace("Accept: %v", err)
+					h.Trace("Accept: %v", err)
 					return
 				}
-				h.trace("Accept: connection from %s", c.RemotePeer())
+				h.Trace("Accept: connection from %s", c.RemotePeer())
 				liveMu.Lock()
 				if liveConn[1] == nil {
 					liveConn[1] = c
@@ -655,10 +707,10 @@ func runInBubble(cs Case, res *Result, dial DialFunc) {
 	for i, a := range atts {
 		select {
 		case <-a.done:
-			h.trace("outbound %d: stage=%s err=%v", i, a.stage, a.err)
+			h.Trace("outbound %d: stage=%s err=%v", i, a.stage, a.err)
 		case <-time.After(90 * time.Second):
 			a.stage = "hung"
-			h.trace("outbound %d: Upgrade did not return within 90s although its context expires after %v", i, dialTimeout)
+			h.Trace("outbound %d: Upgrade did not return within 90s although its context expires after %v", i, dialTimeout)
 		}
 	}
 	res.OutStage = atts[0].stage
@@ -702,7 +754,7 @@ func runInBubble(cs Case, res *Result, dial DialFunc) {
 		if i == 0 {
 			res.Post = p
 		}
-		h.trace("outbound %d: %s", i, p)
+		h.Trace("outbound %d: %s", i, p)
 	}
 	synctest.Wait()
 
@@ -711,13 +763,13 @@ func runInBubble(cs Case, res *Result, dial DialFunc) {
 		for i, a := range atts {
 			if a.conn != nil {
 				c := a.conn
-				h.step(fmt.Sprintf("close outbound conn %d", i), func() { h.trace("outbound %d Close: %v", i, c.Close()) })
+				h.Step(fmt.Sprintf("close outbound conn %d", i), func() { h.Trace("outbound %d Close: %v", i, c.Close()) })
 			}
 		}
 	}
 	closeIn := func() {
 		for i, c := range inConns {
-			h.step(fmt.Sprintf("close inbound conn %d", i), func() { h.trace("inbound %d Close: %v", i, c.Close()) })
+			h.Step(fmt.Sprintf("close inbound conn %d", i), func() { h.Trace("inbound %d Close: %v", i, c.Close()) })
 		}
 	}
 	if cs.Variant.InClosesFirst {
@@ -735,13 +787,13 @@ func runInBubble(cs Case, res *Result, dial DialFunc) {
 		}
 	}
 	markLnClose()
-	h.step("close listener", func() { h.trace("listener.Close(): %v", ln.Close()) })
+	h.Step("close listener", func() { h.Trace("listener.Close(): %v", ln.Close()) })
 	// a connection that was accepted after the collection window is closed as well
 	for {
 		select {
 		case c := <-accepted:
 			inConns = append(inConns, c)
-			h.step("close late inbound conn", func() { c.Close() })
+			h.Step("close late inbound conn", func() { c.Close() })
 			continue
 		default:
 		}
@@ -766,7 +818,7 @@ func runInBubble(cs Case, res *Result, dial DialFunc) {
 	}
 	if ThresholdCount != nil {
 		if tc, ok := ThresholdCount(ln); ok && tc != 0 {
-			h.trace("listener threshold counter is %d after Close", tc)
+			h.Trace("listener threshold counter is %d after Close", tc)
 		}
 	}
 
@@ -805,7 +857,7 @@ func runInBubble(cs Case, res *Result, dial DialFunc) {
 					key += "/closed-conn-skipped-by-accept"
 				}
 			}
-			h.vio(key, "%s side: resource usage did not return to its previous value after the attempt was over and everything was closed: %s",
+			h.Vio(key, "%s side: resource usage did not return to its previous value after the attempt was over and everything was closed: %s",
 				s.Name, strings.Join(d, "; "))
 		}
 	}
@@ -827,7 +879,7 @@ func runInBubble(cs Case, res *Result, dial DialFunc) {
 			if scn.ForcePNet {
 				key = "raw-conn-not-closed/force-pnet"
 			}
-			h.vio(key, "attempt %d: the %s side never called Close on its raw connection %s (I/O calls seen: %d %q; outbound stage %s)",
+			h.Vio(key, "attempt %d: the %s side never called Close on its raw connection %s (I/O calls seen: %d %q; outbound stage %s)",
 				i, e.side, e.c.Name(), e.c.Ops(), e.c.Kinds(), a.stage)
 		}
 	}
@@ -835,29 +887,9 @@ func runInBubble(cs Case, res *Result, dial DialFunc) {
 	// ----- audit (iii): shut down what legitimately lives on; whatever is left is a leak -----
 	for _, s := range sides {
 		rm := s.RM
-		h.step("close resource manager "+s.Name, func() { rm.Close() })
+		h.Step("close resource manager "+s.Name, func() { rm.Close() })
 	}
-	synctest.Wait()
-	if stacks, _ := memnet.BubbleGoroutines(); len(stacks) > 0 {
-		sigs := map[string]struct{}{}
-		for _, st := range stacks {
-			sigs[leakSig(st)] = struct{}{}
-		}
-		var l []string
-		for s := range sigs {
-			l = append(l, s)
-		}
-		sort.Strings(l)
-		var sb strings.Builder
-		for i, st := range stacks {
-			if i == 4 {
-				fmt.Fprintf(&sb, "\n... and %d more", len(stacks)-4)
-				break
-			}
-			sb.WriteString("\n--- " + memnet.TopFrames(st, 8))
-		}
-		h.vio("goroutine-left/"+l[0], "%d goroutine(s) started for the attempt are still blocked after both connections, the listener and the resource managers were closed and %v of virtual time passed (harness steps that did not return: %v):%s",
-			len(stacks), Settle, h.hung, sb.String())
+	if !h.AuditGoroutines("both connections, the listener and the resource managers were closed") {
 		// unblock what can be unblocked so that as little as possible stays behind in the process
 		for _, a := range atts {
 			a.COut.Abort()
@@ -903,7 +935,7 @@ func RunCase(t *testing.T, cs Case, dial DialFunc) *Result {
 					}
 					res.Vios = append(res.Vios, Vio{Key: "goroutine-left/at-bubble-exit", Desc: "synctest: " + msg})
 				case strings.Contains(msg, "all goroutines in bubble are blocked"):
-					res.Infra = "harness deadlock: " + msg
+					res.Infra = "H deadlock: " + msg
 				default:
 					res.Infra = "panic: " + msg
 				}
